@@ -41,6 +41,8 @@ def is_quick(tag, t, sel):
     staging loops (minutes to > 10 min each) are thorough-tier only - their arithmetic is covered by C02 per kernel"""
     if tag not in QUICK_CFG:
         return False
+    if sel == "SEL_WR" and tag in ("ulaw", "double_be"):
+        return False        # 250-370 s each (measured); A-law and float32 keep the quick-tier coverage of these paths
     if tag.startswith("pcm") or tag in ("ulaw", "alaw"):
         return t in ("short", "int")
     if tag.startswith("float"):
